@@ -424,6 +424,9 @@ func (a *Act) autoInvs(h *ssa.BasicBlock, st *State) [][2]string {
 		return out
 	}
 	for _, k := range sortedKeys(wl.heaps) {
+		if !top.frameMemo.framed(k) {
+			continue
+		}
 		if strings.HasPrefix(k, "IT:") || k == "G:chancap" || k == "G:chanclosed" || k == "G:held" || k == "G:lockuses" || k == "G:nsent" || anyKey[k] || top.modelFieldKey(k) {
 			continue
 		}
@@ -598,15 +601,28 @@ func (a *Act) enterLoop(h *ssa.BasicBlock, st *State, ins []edgeIn) {
 	}
 }
 
-func (a *Act) havocAllHeaps(st *State) {
+func (a *Act) havocAllHeaps(st *State) { a.havocHeaps(st, true, nil) }
+
+// havocMemory: "modifies memory [except T...]": ghost heaps and the fields of the excepted struct types are kept.
+func (a *Act) havocMemory(st *State, except []string) { a.havocHeaps(st, false, except) }
+
+func (a *Act) havocHeaps(st *State, ghosts bool, except []string) {
 	for _, k := range sortedKeys(a.vc.heapSorts) {
 		if strings.HasPrefix(k, "IT:") {
 			continue
 		}
+		if !ghosts && (strings.HasPrefix(k, "G:") || keptKey(k, except)) {
+			continue
+		}
 		st.heap[k] = a.vc.fresh("Hh_"+k, a.vc.heapSorts[k])
+		if a.top != nil && a.top.written != nil {
+			a.top.written[k] = true
+		} else if a.written != nil {
+			a.written[k] = true
+		}
 	}
 	a.vc.gens++
-	st.gen = a.vc.gens
+	st.pushHavoc(havocEv{gen: a.vc.gens, all: ghosts, except: except})
 	if a.writeLog != nil {
 		a.writeLog.all = true
 	}
